@@ -438,3 +438,10 @@ package cisco
 //vc:  assign at "l[j] = c" vrfEntryHandled = c
 //vc:  assign after "s.markNeeded(c.sub)" vrfEntryHandled = c
 //vc:  invariant[C07] 4 "for _, c := range l" @keptOrProtected rangeindex >= 0 ==> vrfEntryHandled == vrfEntryAtHand
+
+// setName (closure 1 of generateNamesForTransfer): the name generated for an
+// object that is going to be transferred is not the name of an object of that
+// kind on the device (the map it is tested against is the device's map for the
+// kind at hand - a name found free for another kind proves nothing).
+//vc:func (*State).generateNamesForTransfer$1
+//vc:  ensures[C01,C02] @generatedNameFreeOnDevice !(c.name in devNames)
